@@ -361,6 +361,10 @@ Definition chk_list (i : bool * bool * list name) (out : list (N * name * scheme
   let '(sorted, lexical, listing) := i in
   list_eqb loc_eqb (list_manifest_locations sorted lexical listing) out.
 
+(* Dataset::versions(): the attached version numbers, ascending *)
+Definition chk_versions (listing : list name) (out : list N) : bool :=
+  list_eqb N.eqb (rev (map loc_version (sort_desc (list_manifests listing)))) out.
+
 (* migration: directory after the call, as a list sorted by file name *)
 Fixpoint insert_entry (x : name * N) (l : dir) : dir :=
   match l with
